@@ -13,7 +13,7 @@ case "$cmd" in *--offline*) ;; *) cmd="$cmd --offline";; esac
 demo_files=$(git status --porcelain | grep '^??' | awk '{print $2}' | grep -E '^crates/.*\.rs$')
 if [ -z "$demo_files" ]; then
   dc=$(echo "$cmd" | grep -oE '\-p [a-z-]+' | head -1 | awk '{print $2}'); dn=$(echo "$cmd" | grep -oE '\-\-test [A-Za-z0-9_]+' | awk '{print $2}')
-  cp "$OUT/demo.rs" "crates/$dc/tests/$dn.rs"; demo_files="crates/$dc/tests/$dn.rs"
+  mkdir -p "crates/$dc/tests"; cp "$OUT/demo.rs" "crates/$dc/tests/$dn.rs"; demo_files="crates/$dc/tests/$dn.rs"
 fi
 echo "seed=$S crates=[$crates] demo_cmd=[$cmd] demo_files=[$demo_files]"
 git apply -R --check "$OUT/patch.diff" 2>/dev/null || { echo "patch not applied in worktree; applying"; git apply "$OUT/patch.diff" || exit 2; }
